@@ -239,15 +239,26 @@ def unknown_name_stream(ctx, n):
                 bad = rng.choice(deep)       # exists in the full tree, flattened away by the limit
         if bad in present:
             continue
-        for spec in rules.all_shapes((rng.choice(["named", "sub"]), [good]), (rng.choice(["named", "sub"]), [bad]), with_aliases=False) + \
-                rules.all_shapes((rng.choice(["named", "sub"]), [bad]), (rng.choice(["named", "sub"]), [good])):
-            io = rules.run_rule(rules.build_rule(spec), arch)
+        # batches: the absent name listed next to existing ones, preferably next to its own would-be parent / ancestors
+        batch = [bad]
+        if rng.random() < 0.65:
+            ancestors = [a for a in (".".join(bad.split(".")[:i]) for i in range(1, bad.count(".") + 1)) if a in present and a != good]
+            mates = (rng.sample(ancestors, 1) if ancestors and rng.random() < 0.8 else []) + rng.sample(sorted(present - {good}), min(len(present) - 1, rng.randint(0, 2)))
+            batch = list(dict.fromkeys(mates + [bad]))
+            rng.shuffle(batch)
+            ctx.stat("unknown_name_in_batch" + ("_below_listed_parent" if any(bad.startswith(m + ".") for m in batch) else ""))
+        specs = rules.all_shapes((rng.choice(["named", "sub"]), [good]), (rng.choice(["named", "sub"]), batch), with_aliases=False) + \
+            rules.all_shapes((rng.choice(["named", "sub"]), batch), (rng.choice(["named", "sub"]), [good]))
+        (rec, _w, _m), = rules.eval_cases([dict(nodes=nodes, edges=edges, specs=specs, limit=limit)])
+        for spec, (io, mo) in zip(specs, rec):
             ctx.evaluations += 1
             ctx.stat("unknown_name_" + io[0])
+            case = dict(nodes=nodes, edges=edges, level_limit=limit, spec=rules._jsonable_spec(spec), impl=io[0])
             if io[0] in ("PASS", "FAIL"):
                 viol += 1
-                ctx.violation(dict(nodes=nodes, edges=edges, level_limit=limit, spec=rules._jsonable_spec(spec), impl=io[0]),
-                              f"rule mentioning the absent module {bad!r} produced the verdict {io[0]}", {"kind": "unknown_name"})
+                ctx.violation(case, f"rule mentioning the absent module {bad!r} produced the verdict {io[0]}", {"kind": "unknown_name"})
+            if not rules.same_verdict(io, mo):
+                ctx.disagreement(dict(case, model=mo[0]), f"unknown-name rule: implementation {io[0]}, model {mo[0]}")
         ctx.mark_nontrivial(("unknown", bad, tuple(nodes)))
 
 
